@@ -158,7 +158,7 @@ impl Scenario for Hb {
                 if horizon_ms > now {
                     ctx.sleep_ms(horizon_ms - now);
                 }
-                std::mem::forget(ch);
+                ctx.forget(ch);
                 let r = conn.close();
                 ctx.log(format!("close@{} -> {}", ctx.now_ms(), res(&r)));
             }),
@@ -548,7 +548,7 @@ impl Scenario for Tuned {
                 let idle = if hb > 0 { 3 * hb * 1000 + 200 } else { 200_000 };
                 ctx.sleep_ms(idle);
                 ctx.log(format!("idle until {}", ctx.now_ms()));
-                std::mem::forget(top);
+                ctx.forget(top);
                 let r = conn.close();
                 ctx.log(format!("close -> {}", res(&r)));
             }),
